@@ -111,7 +111,16 @@ class Pipeline():
             print(f'parallel execution of "{self.func.__name__}" with {self.nworkers} workers.')
         with Pool(self.nworkers, maxtasksperchild=self.maxtasksperchild) as pool:
             cache = deque()
-            for el in arg:
+            srcerror = None
+            while True:
+                try:
+                    el = next(arg)
+                except StopIteration:
+                    break
+                except Exception as e:
+                    # the source failed: first deliver what is already in flight
+                    srcerror = e
+                    break
                 cache.append(pool.apply_async(self, (el,), kwargs))
                 if len(cache) < self.cachelen:
                     # fill cache
@@ -128,6 +137,8 @@ class Pipeline():
                 if ret is not None or not self.skipNone:
                     self.el_yielded += 1
                     yield ret
+            if srcerror is not None:
+                raise srcerror
 
     def __getstate__(self):
         import dill
